@@ -713,3 +713,88 @@ Proof.
   destruct (mark_cancels (cn s1) (cn s1)) as [[cn1 okc] badc]. cbn [fst] in HC. subst cn1.
   reflexivity.
 Qed.
+
+(** ---------- progress measure: a send never adds work ---------- *)
+
+Definition work (s : st) : nat := length (pp s) + length (bp s) + length (cn s).
+
+Lemma zdel_length {V} k (l : list (Z * V)) : (length (zdel k l) <= length l)%nat.
+Proof. induction l as [|[k' v] r IH]; cbn [zdel length]; [lia|]. destruct (k =? k'); cbn [length]; lia. Qed.
+
+Lemma zdel_length_has {V} k (l : list (Z * V)) v : zget k l = Some v -> (length (zdel k l) < length l)%nat.
+Proof.
+  induction l as [|[k' v'] r IH]; cbn [zget zdel length]; [discriminate|].
+  destruct (k =? k'); intros H; [pose proof (zdel_length k r); lia|]. cbn [length]. apply IH in H. lia.
+Qed.
+
+Lemma srem_length k s : (length (srem k s) <= length s)%nat.
+Proof. unfold srem. induction s as [|x r IH]; cbn [filter length]; [lia|]. destruct (negb (k =? x)); cbn [length]; lia. Qed.
+
+Lemma srem_length_mem k s : smem k s = true -> (length (srem k s) < length s)%nat.
+Proof.
+  unfold srem, smem. induction s as [|x r IH]; cbn [existsb filter length]; [discriminate|].
+  destruct (k =? x) eqn:E; cbn [negb orb]; intros H.
+  - pose proof (srem_length k r) as L. unfold srem in L. lia.
+  - cbn [length]. apply IH in H. lia.
+Qed.
+
+Lemma wl_remtype_length c t l : (length (fst (wl_remtype c t l)) <= length l)%nat.
+Proof.
+  unfold wl_remtype. destruct (zget c l) as [[p t0]|]; cbn [fst]; [|lia].
+  destruct ((t0 =? TBlock) && (t =? THave)); cbn [fst]; [lia|apply zdel_length].
+Qed.
+
+Lemma wl_remtype_length_ok c t l : snd (wl_remtype c t l) = true -> (length (fst (wl_remtype c t l)) < length l)%nat.
+Proof.
+  unfold wl_remtype. destruct (zget c l) as [[p t0]|] eqn:G; cbn [fst snd]; [|discriminate].
+  destruct ((t0 =? TBlock) && (t =? THave)); cbn [fst snd]; [discriminate|]. intros _. eapply zdel_length_has; eauto.
+Qed.
+
+(** markSent: pending shrinks by at least the number of accepted candidates *)
+Lemma mark_length es : forall pend sent,
+  let '(pend', _, oks, _) := mark es pend sent in (length pend' + length oks <= length pend)%nat.
+Proof.
+  induction es as [|[c [p t]] r IH]; intros pend sent; cbn [mark]; [cbn; lia|].
+  pose proof (wl_remtype_length c t pend) as L1. pose proof (wl_remtype_length_ok c t pend) as L2.
+  destruct (wl_remtype c t pend) as [pend1 ok]; cbn [fst snd] in *. destruct ok.
+  - specialize (IH pend1 (wl_add c p t sent)). destruct (mark r pend1 (wl_add c p t sent)) as [[[a b] o] d].
+    cbn [length]. specialize (L2 eq_refl). lia.
+  - specialize (IH pend1 sent). destruct (mark r pend1 sent) as [[[a b] o] d]. lia.
+Qed.
+
+Lemma mark_cancels_length cs : forall cset,
+  let '(cset', oks, _) := mark_cancels cs cset in (length cset' + length oks <= length cset)%nat.
+Proof.
+  induction cs as [|c r IH]; intros cset; cbn [mark_cancels]; [cbn; lia|].
+  destruct (smem c cset) eqn:M.
+  - specialize (IH (srem c cset)). destruct (mark_cancels r (srem c cset)) as [[a o] d]. cbn [length].
+    apply srem_length_mem in M. lia.
+  - specialize (IH cset). destruct (mark_cancels r cset) as [[a o] d]. lia.
+Qed.
+
+(** A send never adds work, and removes at least as much work as the message carries
+    (before the f_merge filter): with [work] as the measure, every send that accepts at
+    least one candidate makes strict progress towards idle. *)
+Theorem send_work fl sh cs pes bes s :
+  let '(pp1, ps1, okp, badp) := mark pes (pp s) (ps s) in
+  let '(bp1, bs1, okb, badb) := mark bes (bp s) (bs s) in
+  let '(cn1, okc, badc) := mark_cancels cs (cn s) in
+  (work (fst (send_result fl sh cs pes bes s)) + (length okp + length okb + length okc) <= work s)%nat.
+Proof.
+  unfold send_result, work.
+  pose proof (mark_length pes (pp s) (ps s)) as H1. pose proof (mark_length bes (bp s) (bs s)) as H2.
+  pose proof (mark_cancels_length cs (cn s)) as H3.
+  destruct (mark pes (pp s) (ps s)) as [[[pp1 ps1] okp] badp].
+  destruct (mark bes (bp s) (bs s)) as [[[bp1 bs1] okb] badb].
+  destruct (mark_cancels cs (cn s)) as [[cn1 okc] badc].
+  cbn [fst pp bp cn]. lia.
+Qed.
+
+Corollary send_never_adds_work fl sh cs pes bes s :
+  (work (do_step fl sh s (SSend cs pes bes)) <= work s)%nat.
+Proof.
+  cbn [do_step]. pose proof (send_work fl sh cs pes bes s) as H.
+  destruct (mark pes (pp s) (ps s)) as [[[pp1 ps1] okp] badp].
+  destruct (mark bes (bp s) (bs s)) as [[[bp1 bs1] okb] badb].
+  destruct (mark_cancels cs (cn s)) as [[cn1 okc] badc]. lia.
+Qed.
